@@ -1,8 +1,9 @@
 SPECIFICATION Spec
 CONSTANTS
   Values = {1, 2, 3, 4}
+  NegMag = {2}
   Gaps = {2}
-  MaxLen = 7
+  MaxLen = 6
 INVARIANTS TypeOK RunIsRef ReadIsCurrent PeakToTrough Recovery OnePerPeak NoneIffMonotone MaxIsLargest ClassicMDD
 PROPERTIES ReadingIsPure
 CHECK_DEADLOCK FALSE
